@@ -13,8 +13,6 @@ MUTATIONS = {
                                    "relative_interval_to_parent_location(block.start, block.end, Strand.PLUS)"),
     "c04-lift-union-not-preserving": (["C04"], P, "lambda location1, location2: location1.union_preserve_overlaps(location2), lifted_blocks",
                                       "lambda location1, location2: location1.union(location2), lifted_blocks"),
-    "c04-lift-result-parent-level": (["C04"], P, "location_with_parent = lifted_blocks_union.reset_parent(self.parent.strip_location_info())",
-                                     "location_with_parent = lifted_blocks_union.reset_parent(self.strip_location_info())"),
     "c04-lift-block-end-off-by-one": (["C04"], P, "relative_interval_to_parent_location(block.start, block.end, block.strand)",
                                       "relative_interval_to_parent_location(block.start, max(block.start, block.end - 1), block.strand)"),
     # ---- ancestor search (Parent.first_ancestor_of_type / has_ancestor_* / Location wrappers)
